@@ -133,8 +133,7 @@ theorem subshell_isolated (copied : List (String × String)) (k : Kind) (sh : Sh
     { (runKind copied k sh body during).env with exitStatus := 0 }
       = { (applyOps { env := sh.env } (if k == .async then during else [])).env with exitStatus := 0 } := by
   unfold runKind
-  simp only [h, Option.isSome_none, Bool.false_eq_true, if_false]
-  simp only [startSubshell, fork_isolated]
+  simp only [h, Option.isSome_none, Bool.false_eq_true, if_false, startKind_parent, finishKind_env]
 
 example : { (runKind implCopied .paren { env := initialEnv }
       (fun c => applyOps c [.set "va" "1", .cd "/d1"]) []).env with exitStatus := 0 }
@@ -145,38 +144,38 @@ example : { (runKind implCopied .paren { env := initialEnv }
     (1) no condition has a command action;
     (2) a condition that was ignored is still ignored;
     (3) the command action the parent had is remembered as `parent_state` (what `trap` prints in the subshell). -/
-theorem subshell_traps_reset (ii : Bool) (env : Env) :
-    (∀ c g', Trap.get (subshellEntry ii env).traps c = some g' → g'.current.action.isCommand = false)
+theorem subshell_traps_reset (ii ks : Bool) (env : Env) :
+    (∀ c g', Trap.get (subshellEntry ii ks env).traps c = some g' → g'.current.action.isCommand = false)
     ∧ (∀ c g, Trap.get env.traps c = some g → g.current.action = .ignore →
-        ∃ g', Trap.get (subshellEntry ii env).traps c = some g' ∧ g'.current.action = .ignore)
+        ∃ g', Trap.get (subshellEntry ii ks env).traps c = some g' ∧ g'.current.action = .ignore)
     ∧ (∀ c g n, Trap.get env.traps c = some g → g.current.action = .command n →
-        ∃ g', Trap.get (subshellEntry ii env).traps c = some g' ∧ g'.parent = some g.current
+        ∃ g', Trap.get (subshellEntry ii ks env).traps c = some g' ∧ g'.parent = some g.current
           ∧ g'.current.action ≠ .command n) := by
-  have htr : (subshellEntry ii env).traps
-      = (Trap.enterSubshell { sys := env.system.sys, traps := env.traps } ii true).traps := rfl
+  have htr : (subshellEntry ii ks env).traps
+      = (Trap.enterSubshell { sys := env.system.sys, traps := env.traps } ii ks).traps := rfl
   refine ⟨?_, ?_, ?_⟩
   · intro c g' hg'
     rw [htr] at hg'
     cases h : Trap.get env.traps c with
     | some g =>
-      rw [get_enterSubshell_some { sys := env.system.sys, traps := env.traps } ii true c g h] at hg'
+      rw [get_enterSubshell_some { sys := env.system.sys, traps := env.traps } ii ks c g h] at hg'
       cases hg'
       exact enterState_not_command _ _
     | none =>
-      rcases get_enterSubshell_none { sys := env.system.sys, traps := env.traps } ii true c h with h0 | ⟨sys, h1⟩
+      rcases get_enterSubshell_none { sys := env.system.sys, traps := env.traps } ii ks c h with h0 | ⟨sys, h1⟩
       · rw [h0] at hg'; cases hg'
       · rw [h1] at hg'; cases hg'
         rw [ignore_action]; rfl
   · intro c g hg hi
-    refine ⟨g.clearParent.enterState (Trap.subshellOption c g.clearParent ii true), ?_, ?_⟩
-    · rw [htr]; exact get_enterSubshell_some { sys := env.system.sys, traps := env.traps } ii true c g hg
+    refine ⟨g.clearParent.enterState (Trap.subshellOption c g.clearParent ii ks), ?_, ?_⟩
+    · rw [htr]; exact get_enterSubshell_some { sys := env.system.sys, traps := env.traps } ii ks c g hg
     · exact enterState_ignore _ _ (by rw [clearParent_current]; exact hi)
   · intro c g n hg hc
-    refine ⟨g.clearParent.enterState (Trap.subshellOption c g.clearParent ii true), ?_, ?_, ?_⟩
-    · rw [htr]; exact get_enterSubshell_some { sys := env.system.sys, traps := env.traps } ii true c g hg
+    refine ⟨g.clearParent.enterState (Trap.subshellOption c g.clearParent ii ks), ?_, ?_, ?_⟩
+    · rw [htr]; exact get_enterSubshell_some { sys := env.system.sys, traps := env.traps } ii ks c g hg
     · rw [enterState_parent _ _ n (by rw [clearParent_current]; exact hc)]; rfl
     · intro hcontra
-      have := enterState_not_command g.clearParent (Trap.subshellOption c g.clearParent ii true)
+      have := enterState_not_command g.clearParent (Trap.subshellOption c g.clearParent ii ks)
       rw [hcontra] at this
       simp [Action.isCommand] at this
 
@@ -184,10 +183,10 @@ theorem subshell_traps_reset (ii : Bool) (env : Env) :
 example :
     let env := (applyOps { env := initialEnv } [.trap Trap.SIGINT (.cmd 1), .trap Trap.SIGQUIT .ign]).env
     ((Trap.get env.traps Trap.SIGINT).map (·.current.action)) = some (.command 1)
-    ∧ ((Trap.get (subshellEntry false env).traps Trap.SIGINT).map (·.current.action)) = some .default
-    ∧ ((Trap.get (subshellEntry false env).traps Trap.SIGINT).bind (·.parent)).map (·.action) = some (.command 1)
-    ∧ ((Trap.get (subshellEntry false env).traps Trap.SIGQUIT).map (·.current.action)) = some .ignore
-    ∧ ((Trap.get (subshellEntry true env).traps Trap.SIGINT).map (·.current.action)) = some .ignore := by
+    ∧ ((Trap.get (subshellEntry false true env).traps Trap.SIGINT).map (·.current.action)) = some .default
+    ∧ ((Trap.get (subshellEntry false true env).traps Trap.SIGINT).bind (·.parent)).map (·.action) = some (.command 1)
+    ∧ ((Trap.get (subshellEntry false true env).traps Trap.SIGQUIT).map (·.current.action)) = some .ignore
+    ∧ ((Trap.get (subshellEntry true true env).traps Trap.SIGINT).map (·.current.action)) = some .ignore := by
   decide
 
 end YashModel.Fork
